@@ -10,7 +10,7 @@ results are rounded, and the conversion to the requested unit happens inside the
 logical operators accept the bare booleans comparisons return, repeated negation included;
 (R5) no nested unit scope; (R6) template formatting is format(value, spec) and a reference is
 substituted only when closed by '}'; (R7) both registration paths of custom units compute the
-factor in base units. NOT decided: numerical results, tolerance behaviour, reference resolution."""
+factor in base units. NOT decided: numerical results, tolerance behaviour, reference resolution. (R9) the DIP solver objects keep no state between atoms and expressions."""
 import ast
 
 from ..doctables import list_table
